@@ -1,6 +1,17 @@
 From VM Require Import Prelude.MachInt Prelude.Outcome Prelude.Tok Impl.Volatile Spec.C01 Suite.C01.
 
-(* ================================================================== characterisations *)
+Ltac dcmp :=
+  repeat match goal with
+  | |- context [N.ltb ?a ?b] => destruct (N.ltb_spec a b)
+  | |- context [N.leb ?a ?b] => destruct (N.leb_spec a b)
+  | |- context [N.eqb ?a ?b] => destruct (N.eqb_spec a b)
+  end.
+
+Lemma W64_gt_ISZ : ISZ_MAX < W64.
+Proof. rewrite W64_val. reflexivity. Qed.
+
+(* ================================================================== characterisations
+   closed forms of the model functions (for C04 C05 C17 C18 C07 as well) *)
 Lemma compute_end_offset_Ok len base offset e :
   compute_end_offset len base offset = Ok e <-> e = base + offset /\ base + offset <= len /\ base + offset < W64.
 Proof.
@@ -10,4 +21,460 @@ Proof.
     + discriminate. + intros (_ & ? & _); lia.
     + intros E; inversion E; lia. + intros (-> & _); reflexivity.
   - split; [discriminate|]. intros (_ & _ & ?); lia.
+Qed.
+
+Lemma compute_end_offset_eq len base offset :
+  compute_end_offset len base offset =
+  if W64 <=? base + offset then Err (EOverflow base offset)
+  else if len <? base + offset then Err (EOutOfBounds (base + offset))
+  else Ok (base + offset).
+Proof. unfold compute_end_offset, compute_offset, checked_add. dcmp; try reflexivity; lia. Qed.
+
+(* the get_slice every implementor has: bounds test, then pointer addition *)
+Definition std_gs (A L off cnt : N) : outcome (vresult vslice) :=
+  Val (if W64 <=? off + cnt then Err (EOverflow off cnt)
+       else if L <? off + cnt then Err (EOutOfBounds (off + cnt))
+       else Ok (VS ((A + off) mod W64) cnt)).
+
+Lemma vs_subslice_eq m s off cnt : vs_subslice m s off cnt = std_gs (vs_addr s) (vs_size s) off cnt.
+Proof.
+  unfold vs_subslice, std_gs, vs_len. rewrite compute_end_offset_eq. unfold ptr_add.
+  dcmp; reflexivity.
+Qed.
+Lemma vs_get_slice_eq m s off cnt : vs_get_slice m s off cnt = std_gs (vs_addr s) (vs_size s) off cnt.
+Proof. apply vs_subslice_eq. Qed.
+Lemma mr_get_slice_unix_eq m r off cnt : mr_get_slice_unix m r off cnt = std_gs (rg_addr r) (rg_size r) off cnt.
+Proof.
+  unfold mr_get_slice_unix, std_gs, mr_len. rewrite compute_end_offset_eq. unfold ptr_add.
+  dcmp; reflexivity.
+Qed.
+Lemma mr_get_slice_xen_eq m r off cnt : mr_get_slice_xen m r off cnt = mr_get_slice_unix m r off cnt.
+Proof. reflexivity. Qed.
+Lemma mr_get_slice_eq m r off cnt : mr_get_slice m r off cnt = std_gs (rg_addr r) (rg_size r) off cnt.
+Proof. apply mr_get_slice_unix_eq. Qed.
+
+Lemma vs_offset_eq m s count :
+  vs_offset m s count =
+  Val (if W64 <=? vs_addr s + count then Err (EOverflow (vs_addr s) count)
+       else if vs_size s <? count then Err (EOutOfBounds (vs_addr s + count))
+       else Ok (VS (vs_addr s + count) (vs_size s - count))).
+Proof.
+  unfold vs_offset, checked_add, checked_sub, ptr_add.
+  destruct (N.ltb_spec (vs_addr s + count) W64) as [H|H];
+    destruct (N.leb_spec W64 (vs_addr s + count)) as [H1|H1]; try lia; try reflexivity.
+  destruct (N.leb_spec count (vs_size s)) as [H2|H2];
+    destruct (N.ltb_spec (vs_size s) count) as [H3|H3]; try lia; try reflexivity.
+  rewrite N.mod_small by lia. reflexivity.
+Qed.
+
+Lemma vs_split_at_eq m s mid :
+  vs_split_at m s mid =
+  Val (if W64 <=? vs_addr s + mid then Err (EOverflow (vs_addr s) mid)
+       else if vs_size s <? mid then Err (EOutOfBounds (vs_addr s + mid))
+       else Ok (VS (vs_addr s) mid, VS (vs_addr s + mid) (vs_size s - mid))).
+Proof. unfold vs_split_at. rewrite vs_offset_eq. cbn [bind]. dcmp; reflexivity. Qed.
+
+Lemma pow2_land_pred k : N.land (2 ^ k) (2 ^ k - 1) = 0.
+Proof.
+  replace (2 ^ k - 1) with (N.ones k) by (rewrite N.ones_equiv; lia).
+  apply N.bits_inj_0. intros n. rewrite N.land_spec, N.pow2_bits_eqb.
+  destruct (N.eqb_spec k n) as [->|Hne]; [|reflexivity].
+  rewrite N.ones_spec_high by lia. reflexivity.
+Qed.
+Lemma land_pow2_pred a k : N.land a (2 ^ k - 1) = a mod 2 ^ k.
+Proof.
+  replace (2 ^ k - 1) with (N.ones k) by (rewrite N.ones_equiv; lia). apply N.land_ones.
+Qed.
+Lemma pow2_ge1 k : 1 <= 2 ^ k.
+Proof. assert (2 ^ k <> 0) by (apply N.pow_nonzero; lia). lia. Qed.
+
+(* check_alignment, for a power of two: Misaligned exactly when the address is no multiple *)
+Lemma vs_check_alignment_eq m s k :
+  vs_check_alignment m s (2 ^ k) =
+  Val (if vs_addr s mod 2 ^ k =? 0 then Ok tt else Err (EMisaligned (vs_addr s) (2 ^ k))).
+Proof.
+  unfold vs_check_alignment. pose proof (pow2_ge1 k) as H1.
+  rewrite !psub_Val by lia.
+  assert (E : (match m with
+               | Debug => let* am1 := Val (2 ^ k - 1) in passert 670 (N.land (2 ^ k) am1 =? 0)
+               | Release => Val tt end) = Val tt).
+  { destruct m; [|reflexivity]. cbn [bind]. rewrite pow2_land_pred. reflexivity. }
+  rewrite E. cbn [bind]. rewrite land_pow2_pred.
+  destruct (N.eqb_spec (vs_addr s mod 2 ^ k) 0); reflexivity.
+Qed.
+
+Lemma va_to_slice_eq m a : va_nelem a * va_esz a < W64 ->
+  va_to_slice m a = Val (VS (va_addr a) (va_nelem a * va_esz a)).
+Proof. intros H. unfold va_to_slice, va_element_size. rewrite pmul_Val by exact H. reflexivity. Qed.
+Lemma va_ptr_guard_eq m a : va_nelem a * va_esz a < W64 ->
+  va_ptr_guard m a = Val (PG (va_addr a) (va_nelem a * va_esz a)).
+Proof. intros H. unfold va_ptr_guard, va_element_size, va_len. rewrite pmul_Val by exact H. reflexivity. Qed.
+Lemma va_ref_at_eq m a i : va_addr a + va_nelem a * va_esz a < W64 ->
+  va_ref_at m a i =
+  if i <? va_nelem a then Val (VR (va_addr a + va_esz a * i) (va_esz a)) else Panic 1135.
+Proof.
+  intros H. unfold va_ref_at, va_element_size, ptr_add.
+  destruct (N.ltb_spec i (va_nelem a)) as [Hi|Hi]; cbn [passert bind]; [|reflexivity].
+  assert (va_esz a * i <= va_nelem a * va_esz a) by nia.
+  rewrite pmul_Val by lia. cbn [bind]. rewrite N.mod_small by lia. reflexivity.
+Qed.
+
+(* from_slice: Some exactly for a slice of size_of::<T>() != 0 bytes at a multiple of the alignment *)
+Lemma align_offset_0 addr al : 0 < al -> (align_offset addr al = 0 <-> addr mod al = 0).
+Proof.
+  intros Hal. unfold align_offset. pose proof (N.mod_lt addr al ltac:(lia)) as Hr.
+  remember (addr mod al) as r. clear Heqr. split.
+  - intros H. destruct (N.eq_dec r 0) as [->|Hne]; [reflexivity|].
+    rewrite N.mod_small in H by lia. lia.
+  - intros ->. rewrite N.sub_0_r. apply N.mod_same. lia.
+Qed.
+Lemma bv_from_slice_eq T addr len : 0 < e_align T ->
+  bv_from_slice T addr len =
+  if (len =? e_size T) && negb (e_size T =? 0) && (addr mod e_align T =? 0)
+  then Some (TR addr (e_size T) (e_align T)) else None.
+Proof.
+  intros Hal. unfold bv_from_slice, align_to.
+  destruct (N.eqb_spec len (e_size T)) as [->|Hne]; cbn [negb andb]; [|reflexivity].
+  destruct (N.eqb_spec (e_size T) 0) as [Hz|Hz]; cbn [negb andb].
+  { rewrite Hz. reflexivity. }
+  pose proof (align_offset_0 addr (e_align T) Hal) as HA.
+  destruct (N.eqb_spec (addr mod e_align T) 0) as [Hm|Hm].
+  - apply HA in Hm. rewrite Hm.
+    destruct (N.ltb_spec (e_size T) 0) as [?|_]; [lia|].
+    rewrite N.sub_0_r, N.div_same, N.mod_same by exact Hz. reflexivity.
+  - assert (Hoff : align_offset addr (e_align T) <> 0) by (intros E; apply HA in E; contradiction).
+    destruct (N.ltb_spec (e_size T) (align_offset addr (e_align T))) as [Hlt|Hge].
+    + destruct (e_size T) as [|p]; [contradiction|]. destruct p; reflexivity.
+    + destruct (align_offset addr (e_align T)) as [|p]; [contradiction|]. reflexivity.
+Qed.
+
+Lemma gr_get_host_address_eq g a :
+  gr_get_host_address g a =
+  if a <? rg_size (gr_map g) then Ok ((rg_addr (gr_map g) + a) mod W64) else Err GInvalidBackendAddress.
+Proof.
+  unfold gr_get_host_address, gr_check_address, gr_address_in_range, gr_len, ptr_wrapping_offset.
+  destruct (N.ltb_spec a (rg_size (gr_map g))); reflexivity.
+Qed.
+Lemma gr_to_region_addr_eq g addr :
+  gr_to_region_addr g addr =
+  if (gr_base g <=? addr) && (addr - gr_base g <? rg_size (gr_map g)) then Some (addr - gr_base g) else None.
+Proof.
+  unfold gr_to_region_addr, checked_sub, gr_check_address, gr_address_in_range, gr_len.
+  destruct (N.leb_spec (gr_base g) addr); cbn [andb]; [|reflexivity].
+  destruct (N.ltb_spec (addr - gr_base g) (rg_size (gr_map g))); reflexivity.
+Qed.
+
+(* ================================================================== one derivation step *)
+Lemma std_gs_cases A L off cnt : A + L < W64 ->
+  (off + cnt <= L /\ std_gs A L off cnt = Val (Ok (VS (A + off) cnt))) \/
+  (L < off + cnt /\ exists e, std_gs A L off cnt = Val (Err e)).
+Proof.
+  intros H. unfold std_gs.
+  destruct (N.leb_spec W64 (off + cnt)) as [H1|H1]; [right; split; [lia|eexists; reflexivity]|].
+  destruct (N.ltb_spec L (off + cnt)) as [H2|H2]; [right; split; [lia|eexists; reflexivity]|].
+  left. split; [lia|]. rewrite N.mod_small by lia. reflexivity.
+Qed.
+
+Lemma lift_v_Ok {X} (f : X -> accessor) (x : outcome (vresult X)) c :
+  lift_v f x = Val (Ok c) <-> exists a, x = Val (Ok a) /\ c = f a.
+Proof.
+  unfold lift_v. destruct x as [[a|e]| |]; cbn [bind]; split;
+    try discriminate; try (intros (a' & E & _); discriminate).
+  - intros E; inversion E. eexists; split; reflexivity.
+  - intros (a' & E & ->). inversion E. reflexivity.
+Qed.
+Lemma lift_g_Ok {X} (f : X -> accessor) (x : outcome (gresult X)) c :
+  lift_g f x = Val (Ok c) <-> exists a, x = Val (Ok a) /\ c = f a.
+Proof.
+  unfold lift_g. destruct x as [[a|e]| |]; cbn [bind]; split;
+    try discriminate; try (intros (a' & E & _); discriminate).
+  - intros E; inversion E. eexists; split; reflexivity.
+  - intros (a' & E & ->). inversion E. reflexivity.
+Qed.
+
+Section VM.
+  Variables (m : mode) (gs : get_slice_fn) (A L : N).
+  Hypothesis Hgs : forall off cnt, gs off cnt = std_gs A L off cnt.
+  Hypothesis HAL : A + L < W64.
+
+  Lemma vm_aligned_body_iff site T off t k : e_align T = 2 ^ k ->
+    (vm_aligned_body site m gs T off = Val (Ok t) <->
+     (off + e_size T <= L /\ (A + off) mod e_align T = 0) /\ t = TR (A + off) (e_size T) (e_align T)).
+  Proof.
+    intros Hk. unfold vm_aligned_body. rewrite Hgs.
+    destruct (std_gs_cases A L off (e_size T) HAL) as [[Hf E]|[Hf [e E]]]; rewrite E; cbn [bind].
+    - rewrite Hk, vs_check_alignment_eq. cbn [bind vs_addr vs_len vs_size].
+      destruct (N.eqb_spec ((A + off) mod 2 ^ k) 0) as [Ha|Ha].
+      + rewrite N.eqb_refl. cbn [passert bind]. split.
+        * intros X; inversion X; subst. repeat split; assumption.
+        * intros [_ ->]. reflexivity.
+      + split; [discriminate|]. intros [[_ X] _]. contradiction.
+    - split; [discriminate|]. intros [[X _] _]. lia.
+  Qed.
+
+  Lemma lift_aligned_iff site (f : tref -> accessor) T off c k : e_align T = 2 ^ k ->
+    (lift_v f (vm_aligned_body site m gs T off) = Val (Ok c) <->
+     (off + e_size T <= L /\ (A + off) mod e_align T = 0) /\ c = f (TR (A + off) (e_size T) (e_align T))).
+  Proof.
+    intros Hk. rewrite lift_v_Ok. split.
+    - intros (t & E & ->). apply (vm_aligned_body_iff site T off t k Hk) in E. destruct E as [Hf ->].
+      split; [assumption|reflexivity].
+    - intros [Hf ->]. eexists. split; [|reflexivity].
+      apply (vm_aligned_body_iff site T off _ k Hk). split; [assumption|reflexivity].
+  Qed.
+
+  Lemma derive_vm_iff op c : op_wf op ->
+    (derive_vm m gs L op = Val (Ok c) <-> fits_vm A L op /\ c = child_vm A L op).
+  Proof.
+    intros Hwf. destruct op; cbn [derive_vm fits_vm child_vm];
+      try (split; [discriminate|intros [[] _]]).
+    - (* get_slice *)
+      unfold lift_v. rewrite Hgs.
+      destruct (std_gs_cases A L offset count HAL) as [[Hf E]|[Hf [e E]]]; rewrite E; cbn [bind].
+      + split; [intros X; inversion X; split; [assumption|reflexivity]|intros [_ ->]; reflexivity].
+      + split; [discriminate|intros [X _]; lia].
+    - (* as_volatile_slice *)
+      unfold vm_as_volatile_slice. rewrite Hgs.
+      destruct (std_gs_cases A L 0 L HAL) as [[Hf E]|[Hf [e E]]]; [|lia]. rewrite E. cbn [bind].
+      rewrite N.add_0_r. split; [intros X; inversion X; split; [exact I|reflexivity]|intros [_ ->]; reflexivity].
+    - (* get_ref *)
+      unfold lift_v, vm_get_ref. rewrite Hgs.
+      destruct (std_gs_cases A L offset (e_size T) HAL) as [[Hf E]|[Hf [e E]]]; rewrite E; cbn [bind].
+      + cbn [vs_len vs_size vs_addr]. rewrite N.eqb_refl. cbn [passert bind].
+        split; [intros X; inversion X; split; [assumption|reflexivity]|intros [_ ->]; reflexivity].
+      + split; [discriminate|intros [X _]; lia].
+    - (* get_array_ref *)
+      unfold lift_v, vm_get_array_ref, checked_mul_isize.
+      destruct (N.leb_spec n ISZ_MAX) as [Hn|Hn].
+      2:{ cbn [bind]. split; [discriminate|intros [(_ & X & _) _]; lia]. }
+      destruct (N.leb_spec (n * e_size T) ISZ_MAX) as [Hb|Hb].
+      2:{ cbn [bind]. split; [discriminate|intros [(_ & _ & X) _]; lia]. }
+      rewrite Hgs.
+      destruct (std_gs_cases A L offset (n * e_size T) HAL) as [[Hf E]|[Hf [e E]]]; rewrite E; cbn [bind].
+      + cbn [vs_len vs_size vs_addr]. rewrite N.eqb_refl. cbn [passert bind].
+        split; [intros X; inversion X; split; [repeat split; assumption|reflexivity]|intros [_ ->]; reflexivity].
+      + split; [discriminate|intros [(X & _) _]; lia].
+    - destruct Hwf as [k Hk]. apply lift_aligned_iff with (k := k). exact Hk.
+    - destruct Hwf as [k Hk]. apply lift_aligned_iff with (k := k). exact Hk.
+    - destruct Hwf as [k Hk]. apply lift_aligned_iff with (k := k). exact Hk.
+  Qed.
+End VM.
+
+Lemma derive_iff m p op c : acc_valid p -> op_wf op ->
+  (derive m p op = Val (Ok c) <-> fits p op /\ c = child p op).
+Proof.
+  intros Hv Hwf. unfold acc_valid in Hv.
+  destruct p as [s|r|a|t|t|h|r|g]; cbn [acc_base acc_len] in Hv.
+  - (* slice *)
+    assert (HVM : derive_vm m (vs_get_slice m s) (vs_len s) op = Val (Ok c) <->
+                  fits_vm (vs_addr s) (vs_size s) op /\ c = child_vm (vs_addr s) (vs_size s) op).
+    { apply derive_vm_iff; [intros; apply vs_get_slice_eq|exact Hv|exact Hwf]. }
+    destruct op; cbn [derive fits child]; try exact HVM.
+    + (* offset *)
+      rewrite lift_v_Ok, vs_offset_eq. split.
+      * intros (x & E & ->). revert E. dcmp; intros E; inversion E; subst. split; [lia|reflexivity].
+      * intros [Hf ->]. eexists. split; [|reflexivity]. dcmp; try lia. reflexivity.
+    + (* subslice *)
+      rewrite lift_v_Ok, vs_subslice_eq.
+      destruct (std_gs_cases (vs_addr s) (vs_size s) offset count Hv) as [[Hf E]|[Hf [e E]]]; rewrite E.
+      * split; [intros (x & X & ->); inversion X; split; [assumption|reflexivity]|].
+        intros [_ ->]. eexists; split; reflexivity.
+      * split; [intros (x & X & _); discriminate|intros [X _]; lia].
+    + (* split_at, low part *)
+      rewrite lift_v_Ok, vs_split_at_eq. split.
+      * intros (x & E & ->). revert E. dcmp; intros E; inversion E; subst. split; [lia|reflexivity].
+      * intros [Hf ->]. exists (VS (vs_addr s) mid, VS (vs_addr s + mid) (vs_size s - mid)).
+        split; [|reflexivity]. dcmp; try lia. reflexivity.
+    + (* split_at, high part *)
+      rewrite lift_v_Ok, vs_split_at_eq. split.
+      * intros (x & E & ->). revert E. dcmp; intros E; inversion E; subst. split; [lia|reflexivity].
+      * intros [Hf ->]. exists (VS (vs_addr s) mid, VS (vs_addr s + mid) (vs_size s - mid)).
+        split; [|reflexivity]. dcmp; try lia. reflexivity.
+    + (* into array *)
+      unfold vs_into_array_u8, vs_len. split; [intros E; inversion E; split; [exact I|reflexivity]|intros [_ ->]; reflexivity].
+    + (* from_slice *)
+      destruct Hwf as [k Hk].
+      assert (Hal : 0 < e_align T) by (rewrite Hk; pose proof (pow2_ge1 k); lia).
+      destruct (N.leb_spec (offset + count) (vs_size s)) as [Hin|Hin].
+      2:{ split; [discriminate|intros [(X & _) _]; lia]. }
+      rewrite bv_from_slice_eq by exact Hal.
+      destruct (N.eqb_spec count (e_size T)) as [Hc|Hc]; cbn [andb negb].
+      2:{ split; [discriminate|intros [(_ & X & _) _]; contradiction]. }
+      destruct (N.eqb_spec (e_size T) 0) as [Hz|Hz]; cbn [andb negb].
+      { split; [discriminate|intros [(_ & _ & X & _) _]; contradiction]. }
+      destruct (N.eqb_spec ((vs_addr s + offset) mod e_align T) 0) as [Ha|Ha].
+      * split; [intros E; inversion E; split; [repeat split; assumption|reflexivity]|intros [_ ->]; reflexivity].
+      * split; [discriminate|intros [(_ & _ & _ & X) _]; contradiction].
+  - (* VolatileRef *)
+    destruct op; cbn [derive fits child]; try (split; [discriminate|intros [[] _]]).
+    unfold vr_to_slice. split; [intros E; inversion E; split; [exact I|reflexivity]|intros [_ ->]; reflexivity].
+  - (* VolatileArrayRef *)
+    cbn [va_addr va_nelem va_esz] in Hv.
+    destruct op; cbn [derive fits child]; try (split; [discriminate|intros [[] _]]).
+    + rewrite va_ref_at_eq by exact Hv.
+      destruct (N.ltb_spec index (va_nelem a)) as [Hi|Hi]; cbn [bind].
+      * split; [intros E; inversion E; split; [assumption|reflexivity]|intros [_ ->]; reflexivity].
+      * split; [discriminate|intros [X _]; lia].
+    + rewrite va_to_slice_eq by lia. cbn [bind].
+      split; [intros E; inversion E; split; [exact I|reflexivity]|intros [_ ->]; reflexivity].
+  - split; [discriminate|intros [[] _]].
+  - split; [discriminate|intros [[] _]].
+  - split; [discriminate|intros [[] _]].
+  - (* MmapRegion *)
+    cbn [derive fits child].
+    apply derive_vm_iff; [intros; apply mr_get_slice_eq|exact Hv|exact Hwf].
+  - (* GuestRegionMmap *)
+    destruct op; cbn [derive fits child]; try (split; [discriminate|intros [[] _]]).
+    + rewrite lift_g_Ok. unfold gr_get_slice. rewrite mr_get_slice_eq.
+      destruct (std_gs_cases (rg_addr (gr_map g)) (rg_size (gr_map g)) offset count Hv) as [[Hf E]|[Hf [e E]]];
+        rewrite E; cbn [bind].
+      * split; [intros (x & X & ->); inversion X; split; [assumption|reflexivity]|].
+        intros [_ ->]. eexists; split; reflexivity.
+      * split; [intros (x & X & _); discriminate|intros [X _]; lia].
+    + rewrite gr_get_host_address_eq.
+      destruct (N.ltb_spec addr (rg_size (gr_map g))) as [Hi|Hi].
+      * rewrite N.mod_small by lia.
+        split; [intros E; inversion E; split; [assumption|reflexivity]|intros [_ ->]; reflexivity].
+      * split; [discriminate|intros [X _]; lia].
+    + rewrite lift_g_Ok. unfold gr_as_volatile_slice, gr_get_slice, gr_len. rewrite mr_get_slice_eq.
+      destruct (std_gs_cases (rg_addr (gr_map g)) (rg_size (gr_map g)) 0 (rg_size (gr_map g)) Hv) as [[Hf E]|[Hf [e E]]];
+        [|lia]. rewrite E; cbn [bind]. rewrite N.add_0_r.
+      split; [intros (x & X & ->); inversion X; split; [exact I|reflexivity]|].
+      intros [_ ->]. eexists; split; reflexivity.
+Qed.
+
+(* ================================================================== the property, one step *)
+Lemma child_inside p op : acc_valid p -> fits p op -> inside p (child p op) /\ acc_valid (child p op).
+Proof.
+  unfold acc_valid, inside. intros Hv Hf.
+  destruct p as [s|r|a|t|t|h|r|g]; cbn [fits] in Hf; try contradiction;
+    destruct op; cbn [fits_vm] in Hf; try contradiction;
+    cbn [child child_vm acc_base acc_len vs_addr vs_size vr_addr vr_esz va_addr va_nelem va_esz
+         tr_addr tr_size rg_addr rg_size gr_map] in *;
+    try (destruct Hf as (? & ? & ?)); try (destruct Hf as (? & ?)); try lia; try nia.
+Qed.
+
+Lemma child_aligned p op : fits p op -> acc_aligned (child p op).
+Proof.
+  intros Hf.
+  destruct p as [s|r|a|t|t|h|r|g]; cbn [fits] in Hf; try contradiction;
+    destruct op; cbn [fits_vm] in Hf; try contradiction;
+    cbn [child child_vm acc_aligned tr_addr tr_align]; try exact I;
+    try (destruct Hf as (_ & _ & _ & Hf); exact Hf); try (destruct Hf as (_ & Hf); exact Hf).
+Qed.
+
+Lemma derive_contained_lemma : forall m p op c, acc_valid p -> op_wf op ->
+  derive m p op = Val (Ok c) -> inside p c /\ acc_valid c.
+Proof.
+  intros m p op c Hv Hwf E. apply derive_iff in E; [|assumption|assumption].
+  destruct E as [Hf ->]. apply child_inside; assumption.
+Qed.
+
+Lemma derive_aligned_lemma : forall m p op c, acc_valid p -> op_wf op ->
+  derive m p op = Val (Ok c) -> acc_aligned c.
+Proof.
+  intros m p op c Hv Hwf E. apply derive_iff in E; [|assumption|assumption].
+  destruct E as [Hf ->]. apply child_aligned; assumption.
+Qed.
+
+Lemma derive_exact_lemma : forall m p op, acc_valid p -> op_wf op ->
+  (fits p op <-> exists c, derive m p op = Val (Ok c)).
+Proof.
+  intros m p op Hv Hwf. split.
+  - intros Hf. exists (child p op). apply derive_iff; [assumption|assumption|]. split; [assumption|reflexivity].
+  - intros [c E]. apply derive_iff in E; [|assumption|assumption]. destruct E as [Hf _]. exact Hf.
+Qed.
+
+Lemma derive_child_lemma : forall m p op c, acc_valid p -> op_wf op ->
+  (derive m p op = Val (Ok c) <-> fits p op /\ c = child p op).
+Proof. intros; apply derive_iff; assumption. Qed.
+
+Lemma inside_refl p : inside p p.
+Proof. unfold inside; lia. Qed.
+Lemma inside_trans p q r : inside p q -> inside q r -> inside p r.
+Proof. unfold inside; lia. Qed.
+
+(* ================================================================== chains of any depth *)
+Lemma chain_contained_lemma : forall ops m root c, acc_valid root -> Forall op_wf ops ->
+  derive_chain m root ops = Val (Ok c) -> inside root c /\ acc_valid c.
+Proof.
+  induction ops as [|op ops IH]; intros m root c Hv Hwf E; cbn [derive_chain] in E.
+  - inversion E; subst. split; [apply inside_refl|assumption].
+  - inversion Hwf as [|? ? Hop Hrest]; subst.
+    destruct (derive m root op) as [[x|e]| |] eqn:D; cbn [bind] in E; try discriminate.
+    destruct (derive_contained_lemma m root op x Hv Hop D) as [Hi Hvx].
+    destruct (IH m x c Hvx Hrest E) as [Hi2 Hvc].
+    split; [eapply inside_trans; eassumption|assumption].
+Qed.
+
+(* a chain ending in a typed / atomic reference ends aligned *)
+Lemma chain_aligned_lemma : forall ops m root c, acc_valid root -> Forall op_wf ops -> ops <> [] ->
+  derive_chain m root ops = Val (Ok c) -> acc_aligned c.
+Proof.
+  induction ops as [|op ops IH]; intros m root c Hv Hwf Hne E; [contradiction|].
+  cbn [derive_chain] in E. inversion Hwf as [|? ? Hop Hrest]; subst.
+  destruct (derive m root op) as [[x|e]| |] eqn:D; cbn [bind] in E; try discriminate.
+  destruct ops as [|op2 ops2].
+  - cbn [derive_chain] in E. inversion E; subst. eapply derive_aligned_lemma; eassumption.
+  - destruct (derive_contained_lemma m root op x Hv Hop D) as [_ Hvx].
+    eapply IH; try eassumption. discriminate.
+Qed.
+
+(* ================================================================== GuestMemory, given the region *)
+Lemma gm_get_slice_lemma : forall m fr addr count s,
+  (forall r, fr = Some r -> acc_valid (AGRegion r)) ->
+  gm_get_slice m fr addr count = Val (Ok s) ->
+  exists r, fr = Some r /\ gr_base r <= addr /\
+            s = VS (rg_addr (gr_map r) + (addr - gr_base r)) count /\
+            (addr - gr_base r) + count <= rg_size (gr_map r) /\ inside (AGRegion r) (ASlice s).
+Proof.
+  intros m fr addr count s Hv E. unfold gm_get_slice, gm_to_region_addr in E.
+  destruct fr as [r|]; [|cbn [bind] in E; discriminate].
+  specialize (Hv r eq_refl). unfold acc_valid in Hv. cbn [acc_base acc_len] in Hv.
+  rewrite gr_to_region_addr_eq in E.
+  destruct (N.leb_spec (gr_base r) addr) as [Hb|Hb]; cbn [andb] in E; [|discriminate].
+  destruct (N.ltb_spec (addr - gr_base r) (rg_size (gr_map r))) as [Hl|Hl]; [|discriminate].
+  cbn [bind] in E. unfold gr_get_slice in E. rewrite mr_get_slice_eq in E.
+  destruct (std_gs_cases (rg_addr (gr_map r)) (rg_size (gr_map r)) (addr - gr_base r) count Hv)
+    as [[Hf X]|[Hf [e X]]]; rewrite X in E; cbn [bind] in E; [|discriminate].
+  inversion E; subst. exists r. repeat split; try assumption; try reflexivity;
+    cbn [acc_base acc_len vs_addr vs_size]; lia.
+Qed.
+Lemma gm_get_host_address_lemma : forall fr addr p,
+  (forall r, fr = Some r -> acc_valid (AGRegion r)) ->
+  gm_get_host_address fr addr = Val (Ok p) ->
+  exists r, fr = Some r /\ gr_base r <= addr /\ addr - gr_base r < rg_size (gr_map r) /\
+            p = rg_addr (gr_map r) + (addr - gr_base r) /\ inside (AGRegion r) (AHost p).
+Proof.
+  intros fr addr p Hv E. unfold gm_get_host_address, gm_to_region_addr in E.
+  destruct fr as [r|]; [|cbn [bind] in E; discriminate].
+  specialize (Hv r eq_refl). unfold acc_valid in Hv. cbn [acc_base acc_len] in Hv.
+  rewrite gr_to_region_addr_eq in E.
+  destruct (N.leb_spec (gr_base r) addr) as [Hb|Hb]; cbn [andb] in E; [|discriminate].
+  destruct (N.ltb_spec (addr - gr_base r) (rg_size (gr_map r))) as [Hl|Hl]; [|discriminate].
+  cbn [bind] in E. rewrite gr_get_host_address_eq in E.
+  destruct (N.ltb_spec (addr - gr_base r) (rg_size (gr_map r))) as [_|?]; [|lia].
+  rewrite N.mod_small in E by lia. inversion E; subst.
+  exists r. repeat split; try assumption; try reflexivity; cbn [acc_base acc_len]; lia.
+Qed.
+Lemma gm_unmapped_lemma : forall m addr count,
+  gm_get_slice m None addr count = Val (Err (GInvalidGuestAddress addr)) /\
+  gm_get_host_address None addr = Val (Err (GInvalidGuestAddress addr)).
+Proof. intros; split; reflexivity. Qed.
+
+(* the same, with [inside] and [acc_valid] spelled out *)
+Lemma derive_contained_flat : forall m p op c, acc_valid p -> op_wf op ->
+  derive m p op = Val (Ok c) ->
+  acc_base p <= acc_base c /\ acc_base c + acc_len c <= acc_base p + acc_len p /\ acc_base c + acc_len c < W64.
+Proof.
+  intros m p op c Hv Hwf E. destruct (derive_contained_lemma m p op c Hv Hwf E) as [[H1 H2] H3].
+  repeat split; assumption.
+Qed.
+Lemma chain_contained_flat : forall ops m root c, acc_valid root -> Forall op_wf ops ->
+  derive_chain m root ops = Val (Ok c) ->
+  acc_base root <= acc_base c /\ acc_base c + acc_len c <= acc_base root + acc_len root /\
+  acc_base c + acc_len c < W64.
+Proof.
+  intros ops m root c Hv Hwf E. destruct (chain_contained_lemma ops m root c Hv Hwf E) as [[H1 H2] H3].
+  repeat split; assumption.
 Qed.
